@@ -415,8 +415,14 @@ class ScheduleSpace(_Base):
                 if msg:
                     out.violation(rank, "c03|sched|%s|%s|choices=%s" % (fname, kw, chs), "schedule-dependent or wrong table: " + msg,
                                   case={"function": fname, "choices": chs})
-            st = self.dx.explore_schedules(cf, 1, monitor=None, max_execs=self.caps[fname], on_exec=on_exec)
+            st = self.dx.explore_schedules(cf, 1, monitor=None, max_execs=self.caps[fname], on_exec=on_exec,
+                                           tolerate_divergence=(fname == "stats"))
             out.count("schedules", st["executions"])
+            if st["diverged"]:
+                out.count("schedule_prefixes_not_replayable(graph rebuilt with a different fusion)", st["diverged"])
+                out.note("dask stats graph: %d recorded choice prefixes did not fit the rebuilt graph (Dask fuses the uuid-named "
+                         "delayed tasks differently on every build); the executed schedules are valid schedules of the real graph, "
+                         "but the <=1-deviation set is not claimed complete for stats" % st["diverged"])
             if st["capped"]:
                 out.count("schedule_caps_hit")
                 out.note("schedule cap %d hit for %s: the first %d one-deviation schedules (in DFS order) were covered; "
